@@ -659,7 +659,7 @@ def mutate(rng, spec, ci, force_kind=None):
 # ------------------------------------------------------------------------------------------------ hand-written calls (subgraph operators)
 
 
-HAND_NAMES = ["hand_if_add_mul", "hand_loop_carry_scan", "hand_loop_no_inputs", "hand_sequencemap_add"]
+HAND_NAMES = ["hand_if_add_mul", "hand_loop_carry_scan", "hand_loop_no_inputs", "hand_scan_state_and_scan", "hand_sequencemap_add"]
 
 
 def hand_plans(v):
@@ -670,7 +670,7 @@ def hand_plans(v):
     op = module(v)
     plans = []
 
-    def mk(opname, src, kw_fn, ins, env_t, graphs, ref_node_fn, k):
+    def mk(opname, src, kw_fn, ins, env_t, graphs, ref_node_fn, k, data_attrs=None):
         ci = info(v, opname)
         p = Plan()
         p.ci = ci
@@ -681,7 +681,9 @@ def hand_plans(v):
         p.n_vars = len(vars_)
         p.k_variadic = k
         p.kw = kw_fn(vars_)
-        p.attrs = [(key, (key, ("G",) + tuple(graphs[key]))) if key in graphs else (key, None) for key, _ in ci.attr_fields]
+        data_attrs = data_attrs or {}
+        p.attrs = [(key, (key, ("G",) + tuple(graphs[key]))) if key in graphs else
+                   ((key, (key, ("D",) + tuple(data_attrs[key]))) if key in data_attrs else (key, None)) for key, _ in ci.attr_fields]
         p.ref_fn = lambda outs: ref_node_fn(outs)
         return p
 
@@ -743,6 +745,28 @@ def hand_plans(v):
 
     plans.append(mk("Loop", "hand_loop_no_inputs", loop0_kw, [("O", None), ("O", None), ("V", [])], [],
                     {"body": ([["T", I, [1]], ["T", B, [1]]], [["T", B, [1]], ["T", I, [1]]])}, loop0_ref, 1))
+
+    # Scan: one state variable, one scanned input (axis 0)
+    t_f3, t_f53 = ["T", F, [3]], ["T", F, [5, 3]]
+
+    def scan_kw(vs):
+        return {"initial_state_and_scan_inputs": [vs[0], vs[1]], "num_scan_inputs": 1,
+                "body": lambda a, x: [op.add(a, x), op.mul(a, x)]}
+
+    def scan_ref(outs):
+        body = helper.make_graph(
+            [helper.make_node("Add", ["a", "x"], ["a_out"]), helper.make_node("Mul", ["a", "x"], ["s_out"])], "body",
+            [helper.make_value_info("a", L.typeproto_of_tspec(t_f3)), helper.make_value_info("x", L.typeproto_of_tspec(t_f3))],
+            [helper.make_value_info("a_out", L.typeproto_of_tspec(t_f3)), helper.make_value_info("s_out", L.typeproto_of_tspec(t_f3))])
+        n = helper.make_node("Scan", ["s", "xs"], outs, body=body, num_scan_inputs=1)
+        g = helper.make_graph([n], "ref", [helper.make_value_info("s", L.typeproto_of_tspec(t_f3)),
+                                           helper.make_value_info("xs", L.typeproto_of_tspec(t_f53))],
+                              [helper.make_value_info(o, onnx.TypeProto()) for o in outs])
+        return helper.make_model(g, opset_imports=[helper.make_operatorsetid("", v)])
+
+    plans.append(mk("Scan", "hand_scan_state_and_scan", scan_kw, [("V", [0, 1])], [t_f3, t_f53],
+                    {"body": ([t_f3, t_f3], [t_f3, t_f3])}, scan_ref, 2,
+                    {"num_scan_inputs": (int(AttributeProto.INT), "1")}))
 
     # SequenceMap: body over the element type
     t_seq = ["S", t_f23]
@@ -1248,12 +1272,29 @@ def run(run: Run) -> int:
             seen_con.add(key)
             base_specs.append(s)
     all_specs = list(base_specs)
-    hand_ops = {"hand_if_add_mul": "If", "hand_loop_carry_scan": "Loop", "hand_loop_no_inputs": "Loop", "hand_sequencemap_add": "SequenceMap"}
+    hand_ops = {"hand_if_add_mul": "If", "hand_loop_carry_scan": "Loop", "hand_loop_no_inputs": "Loop",
+                "hand_scan_state_and_scan": "Scan", "hand_sequencemap_add": "SequenceMap"}
     for v in VERSIONS:
         for name in HAND_NAMES:
             if hand_ops[name] in module(v)._OPERATORS:
                 all_specs.append({"v": v, "op": hand_ops[name], "src": name, "mut": "hand", "hand": name})
     tries = 0
+    n_base = len(all_specs)
+    # systematic part: for every distinct constructor, every input untyped once (and every input of unknown rank once)
+    first_of = {}
+    for b in base_specs:
+        if b["mut"] in ("", "synthetic"):
+            first_of.setdefault(id(info(b["v"], b["op"]).con), b)
+    for b in first_of.values():
+        for nm in dict.fromkeys(x for x in b["node"].input if x):
+            if nm in b["consts"]:
+                continue
+            for kind in ("untyped", "rank-unknown"):
+                ms = dict(b)
+                ms["intypes"] = dict(b["intypes"])
+                ms["intypes"][nm] = None if kind == "untyped" else _map_tensor(b["intypes"][nm], lambda x: ["T", x[1], None])
+                ms["mut"] = f"{kind}:{nm}"
+                all_specs.append(ms)
     n_base = len(all_specs)
     variadic_bases = [b for b in base_specs if info(b["v"], b["op"]).in_slots and info(b["v"], b["op"]).in_slots[-1][1] == "VARIADIC"]
     optional_bases = [b for b in base_specs if any(k == "OPTIONAL" for _, k in info(b["v"], b["op"]).in_slots)]
